@@ -13,10 +13,13 @@
 From Coq Require Import ZArith NArith Reals Lia Lra List Bool Psatz.
 From Flocq Require Import Core BinarySingleNaN.
 From SJ Require Import Base.Bytes Base.FloatB Gen.LexTables Model.Read Model.Num Model.Lex.
-From SJ Require Import Proofs.FloatDefault Proofs.FloatOracle Proofs.LexExt Proofs.LexRnd Proofs.LexBits Proofs.LexAtof
+From SJ Require Import Proofs.FloatDefault Proofs.FloatOracle Proofs.LexExt Proofs.LexTables Proofs.LexRnd Proofs.LexBits Proofs.LexAtof
                        Proofs.LexRtn Proofs.LexErr.
 Import ListNotations.
 Open Scope Z_scope.
+
+(* no division reasoning is needed here; LexExt/LexAtof switch the euclidean-division hook of zify on, which makes lia slow *)
+Ltac Zify.zify_post_hook ::= idtac.
 
 (* ------------------------------------------------------------------ *)
 (** * encodings *)
@@ -93,6 +96,14 @@ Qed.
 
 (* ------------------------------------------------------------------ *)
 (** * real helpers *)
+Lemma Rle_powerRZ' (a b : Z) : a <= b -> (powerRZ 10 a <= powerRZ 10 b)%R.
+Proof.
+  intros H. replace b with (a + (b - a)) by lia. rewrite powerRZ_add by lra. rewrite (powerRZ_10_nonneg (b - a)) by lia.
+  assert (0 < powerRZ 10 a)%R by (apply powerRZ_lt; lra).
+  assert (1 <= IZR (10 ^ (b - a)))%R by (apply IZR_le; assert (0 < 10 ^ (b - a)) by (apply pow10_pos; lia); lia).
+  nra.
+Qed.
+
 Lemma coef_le (a b : Z) (t : R) : (0 < t)%R -> a <= b -> (IZR a * t <= IZR b * t)%R.
 Proof. intros Ht H. apply Rmult_le_compat_r; [lra|apply IZR_le; exact H]. Qed.
 Lemma coef_lt (a b : Z) (t : R) : (0 < t)%R -> a < b -> (IZR a * t < IZR b * t)%R.
@@ -261,21 +272,20 @@ Proof.
   assert (Hlo : (IZR (m - er) * t < x)%R) by (rewrite minus_IZR; lra).
   assert (Hhi : (x < IZR (m + er) * t)%R) by (rewrite plus_IZR; lra).
   clear Hhi0 Hlo0.
-  pose proof (into_float_norm k m3 e3 Hm) as Hif. cbv zeta in Hif. destruct Hif as (Hif1 & Hif2).
   rewrite (error_is_accurate_norm k err m3 e3 ltac:(lia) ltac:(fold er; lia)). cbv zeta. fold m er.
   destruct (rshift_range k e3) as (Hs1 & Hs2 & Hs3 & Hds).
   set (s := rshift k e3) in *.
   pose proof x_pos as Hxp.
   destruct (Z.ltb_spec 65 s) as [H65|H65].
   { (* far below the least denormal *)
-    destruct (Hif2 ltac:(lia)) as (Hf & _). split; [|intros Hc; discriminate Hc].
+    destruct (proj2 (into_float_norm k m3 e3 Hm) ltac:(fold s; lia)) as (Hf & _). split; [|intros Hc; discriminate Hc].
     intros _. rewrite Hf. symmetry. apply orc_tiny.
     apply Rlt_le_trans with (1 := Hhi).
     assert (He3 : e3 + 66 <= DENORMAL_EXPONENT k) by (destruct Hs3 as [H|H]; lia).
     apply Rle_trans with (IZR (2 ^ 65) * t)%R; [apply coef_le; [exact Ht|change (2 ^ 65) with (2 * 2 ^ 64); lia]|].
     unfold t. rewrite <- (bpow_IZR 65) by lia. rewrite <- bpow_plus. apply bpow_le. lia. }
   destruct (Z.eqb_spec s 65) as [He65|Hne65].
-  { destruct (Hif2 ltac:(lia)) as (Hf & Hdn).
+  { destruct (proj2 (into_float_norm k m3 e3 Hm) ltac:(fold s; lia)) as (Hf & Hdn).
     assert (He3 : e3 + 65 = DENORMAL_EXPONENT k) by (destruct Hs3 as [H|H]; lia).
     split.
     - intros Hacc. apply Z.ltb_lt in Hacc. rewrite Hf. symmetry. apply orc_tiny.
@@ -293,11 +303,12 @@ Proof.
       unfold t. rewrite <- (bpow_IZR 65) by lia. rewrite <- bpow_plus. apply bpow_le. lia. }
   (* 11 <= s <= 64 *)
   assert (Hs64 : s <= 64) by lia.
-  destruct (Hif1 Hs64) as (Hfl & Hdn & Hq & Hcan). clear Hif1 Hif2.
+  destruct (proj1 (into_float_norm k m3 e3 Hm) ltac:(fold s; lia)) as (Hfl & Hdn & Hq & Hcan). fold s m in Hfl, Hdn, Hq, Hcan.
   set (q := m / 2 ^ s) in *. set (r := m mod 2 ^ s) in *. set (E := e3 + s) in *.
   assert (Hps : 0 < 2 ^ s) by (apply pow2_pos; lia).
-  assert (Hmqr : m = q * 2 ^ s + r) by (unfold q, r; pose proof (Z.div_mod m (2 ^ s) ltac:(lia)); lia).
+  assert (Hmqr : m = q * 2 ^ s + r) by (unfold q, r; rewrite Z.mul_comm; apply Z.div_mod; lia).
   assert (Hr : 0 <= r < 2 ^ s) by (unfold r; apply Z.mod_pos_bound; exact Hps).
+  clearbody q r.
   assert (H2s : 2 ^ s = 2 * 2 ^ (s - 1)) by (rewrite <- Z.pow_succ_r by lia; f_equal; lia).
   assert (H2s' : 2 ^ s = 4 * 2 ^ (s - 2)) by (change 4 with (2 ^ 2); rewrite <- Z.pow_add_r by lia; f_equal; lia).
   assert (Hh : 1024 <= 2 ^ (s - 1)) by (change 1024 with (2 ^ 10); apply Z.pow_le_mono_r; lia).
@@ -328,18 +339,15 @@ Proof.
       destruct (last_finite k bm Hbm) as (HMl & HEl).
       replace (2 * Z.of_N (f_mantissa k bm) + 1) with (2 * 2 ^ prec k - 1) by lia. rewrite HEl.
       apply Rle_lt_trans with (2 := Hlo).
-      (* (2^(p+1) - 1) * 2^(MAX-2) <= (m - er) * 2^e3, with e3 >= MAX - DS *)
-      replace (MAX_EXPONENT k - 1 - 1) with (e3 + (MAX_EXPONENT k - 2 - e3)) by lia.
-      rewrite bpow_up by (unfold E in Hovf; destruct k; kconst; lia). apply coef_le; [exact Ht|].
-      assert (Hpw : 2 ^ (MAX_EXPONENT k - 2 - e3) <= 2 ^ (DEFAULT_SHIFT k - 2)) by (apply Z.pow_le_mono_r; unfold E in Hovf; destruct k; kconst; lia).
-      assert (Hpw0 : 0 < 2 ^ (MAX_EXPONENT k - 2 - e3)) by (apply pow2_pos; unfold E in Hovf; destruct k; kconst; lia).
-      set (X := 2 ^ (MAX_EXPONENT k - 2 - e3)) in *.
-      assert (Hmul : (2 * 2 ^ prec k - 1) * X <= (2 * 2 ^ prec k - 1) * 2 ^ (DEFAULT_SHIFT k - 2))
-        by (apply Z.mul_le_mono_nonneg_l; [assert (0 < 2 ^ prec k) by (apply pow2_pos; destruct k; kconst; lia); lia|exact Hpw]).
-      apply Z.le_trans with (1 := Hmul). clear Hmul Hpw Hpw0. clearbody X.
-      change (2 ^ 63) with 9223372036854775808 in Hm'.
-      destruct k; kconst; change (2 ^ (11 - 2)) with 512; change (2 ^ (40 - 2)) with 274877906944;
-        change (2 ^ (52 + 1)) with 9007199254740992; change (2 ^ (23 + 1)) with 16777216; lia. }
+      (* (2^(p+1) - 1) * 2^(MAX-2) <= (m - er) * 2^(MAX-DS) <= (m - er) * 2^e3 *)
+      apply Rle_trans with (IZR (m - er) * bpow radix2 (MAX_EXPONENT k - DEFAULT_SHIFT k))%R.
+      - replace (MAX_EXPONENT k - 1 - 1) with ((MAX_EXPONENT k - DEFAULT_SHIFT k) + (DEFAULT_SHIFT k - 2)) by lia.
+        rewrite bpow_up by (destruct k; kconst; lia). apply coef_le; [apply bpow_gt_0|].
+        change (2 ^ 63) with 9223372036854775808 in Hm'. clear -Hm' Herr. fold er in Herr.
+        destruct k; kconst; change (2 ^ (11 - 2)) with 512; change (2 ^ (40 - 2)) with 274877906944;
+          change (2 ^ (52 + 1)) with 9007199254740992; change (2 ^ (23 + 1)) with 16777216; lia.
+      - apply Rmult_le_compat_l; [apply IZR_le; change (2 ^ 63) with 9223372036854775808 in Hm'; lia|].
+        unfold t. apply bpow_le. lia. }
     split.
     - intros _. rewrite Hfl, Horc.
       assert (0 <= dec_of (r ?= h) q <= 1) by apply dec_of_range. rewrite Z.min_r by lia. apply N2Z.id.
@@ -350,10 +358,10 @@ Proof.
   set (b := Z.to_N (encZ k q E)) in *.
   assert (Hbz : Z.of_N b = encZ k q E).
   { unfold b. destruct (encZ_lt_INF k q E Hq Hcan) as [(_ & H0)|Hbad]; [lia|unfold E in Hbad; lia]. }
-  assert (Hdnb : Z.to_N (Z.min (encZ k q E) (Z.of_N (INFINITY_BITS k))) = b) by (rewrite Z.min_l by lia; reflexivity).
+  clearbody b. rewrite <- Hbz in Hfl, Hdn. rewrite Z.min_l, N2Z.id in Hdn by lia.
   split.
   - (* accurate: outside the window around the halfway point *)
-    intros Hacc. apply negb_true_iff in Hacc. apply andb_false_iff in Hacc. rewrite Hfl.
+    intros Hacc. apply negb_true_iff in Hacc. apply andb_false_iff in Hacc. rewrite Hfl. clear Hfl Hdn.
     destruct (Z.le_gt_cases (h + er) r) as [Hup|Hnup].
     + (* rounds up *)
       replace (r ?= h) with Gt by (symmetry; apply Z.compare_gt_iff; lia). unfold dec_of.
@@ -367,13 +375,13 @@ Proof.
       { destruct Hacc as [Hc|Hc]; [apply Z.ltb_ge in Hc; lia|apply Z.ltb_ge in Hc; lia]. }
       replace (r ?= h) with Lt by (symmetry; apply Z.compare_lt_iff; lia). unfold dec_of.
       rewrite (L_down b Hb).
-      * rewrite Z.add_0_r. exact Hdnb.
+      * rewrite Z.add_0_r. rewrite Z.min_l by lia. apply N2Z.id.
       * rewrite HbM, HbE. rewrite RE1. apply Rlt_le_trans with (1 := Hhi). apply coef_le; [exact Ht|]. rewrite Hmqr, H2s. lia.
       * rewrite HbM, HbE. rewrite RE, RE2. apply Rle_lt_trans with (2 := Hlo).
         rewrite <- Rmult_minus_distr_r, <- minus_IZR. apply coef_le; [exact Ht|]. rewrite Hmqr. lia.
   - (* not accurate: x is strictly inside the bracket of the downward float *)
     intros Hacc. apply negb_false_iff in Hacc. apply andb_prop in Hacc. destruct Hacc as (Hc1 & Hc2).
-    apply Z.ltb_lt in Hc1, Hc2. cbv zeta. rewrite Hdn, Hdnb, Hbsp.
+    apply Z.ltb_lt in Hc1, Hc2. cbv zeta. rewrite Hdn, Hbsp. clear Hfl Hdn.
     split; [exact Hb|]. rewrite HbM, HbE. unfold in_ulp. rewrite !RE. split.
     + apply Rlt_le. apply Rle_lt_trans with (2 := Hlo). apply coef_le; [exact Ht|]. rewrite Hmqr. lia.
     + apply Rlt_le_trans with (1 := Hhi). apply coef_le; [exact Ht|]. rewrite Hmqr, H2s. lia.
@@ -390,6 +398,7 @@ Theorem moderate_sound_gen : forall (w : N) (exponent : Z) (truncated : bool) (t
   moderate_path k w exponent truncated = (fp, valid) ->
   (valid = true -> ef_into_float k fp = orc D ed) /\
   (valid = false ->
+   -350 <= exponent < 310 /\
    let b := ef_into_downward_float k fp in
    if f_is_special k b then b = orc D ed
    else (b < INFINITY_BITS k)%N /\ in_ulp x (Z.of_N (f_mantissa k b)) (f_exponent k b)).
@@ -410,7 +419,7 @@ Proof.
     replace (ef_into_float k (mkEF 0%N 0)) with 0%N by (destruct k; vm_compute; reflexivity).
     symmetry. apply orc_tiny. rewrite Hx.
     assert (Hp : (0 < powerRZ 10 exponent <= powerRZ 10 (-351))%R).
-    { split; [apply powerRZ_lt; lra|apply Rle_powerRZ; [lra|lia]]. }
+    { split; [apply powerRZ_lt; lra|apply Rle_powerRZ'; lia]. }
     change (-351) with (- (351)) in Hp. rewrite powerRZ_10_neg in Hp by lia.
     assert (H351 : (0 < IZR (10 ^ 351))%R) by (apply IZR_lt; reflexivity).
     replace (DENORMAL_EXPONENT k - 1) with (- (1 - DENORMAL_EXPONENT k)) by lia. rewrite bpow_opp.
@@ -428,7 +437,8 @@ Proof.
       destruct (mee_bound k w exponent truncated theta Hw0 Hw64 ltac:(lia) Hth Htr) as (m3 & e3 & err & Hmee & Hm3 & Herr & Habs).
       cbv zeta in Habs. rewrite <- Hx in Habs.
       rewrite Hmee in Hmp. injection Hmp as <- <-.
-      apply approx_sound; assumption.
+      destruct (approx_sound m3 e3 err Hm3 Herr Habs) as (A1 & A2).
+      split; [exact A1|]. intros Hv. split; [lia|exact (A2 Hv)].
     + (* overflow *)
       unfold multiply_exponent_extended in Hmp. change BASE10_BIAS with 350 in Hmp. change BASE10_STEP with 10 in Hmp.
       assert (Hsat : 660 <= i32_sat (exponent + 350)) by (unfold i32_sat; lia).
@@ -440,7 +450,7 @@ Proof.
       split; [|intros Hc; discriminate Hc]. intros _.
       replace (ef_into_float k (mkEF 9223372036854775808%N 2047)) with (INFINITY_BITS k) by (destruct k; vm_compute; reflexivity).
       symmetry. apply orc_overflow; [exact HD|]. rewrite Hx.
-      assert (Hp : (powerRZ 10 310 <= powerRZ 10 exponent)%R) by (apply Rle_powerRZ; [lra|lia]).
+      assert (Hp : (powerRZ 10 310 <= powerRZ 10 exponent)%R) by (apply Rle_powerRZ'; lia).
       rewrite powerRZ_10_nonneg in Hp by lia.
       rewrite bpow_IZR by (destruct k; kconst; lia). apply IZR_le in huge_ok.
       assert (0 < IZR (10 ^ 310))%R by (apply IZR_lt; reflexivity).
